@@ -605,7 +605,7 @@ func (e *Engine) rangeInit(w *Worker, st *State, g *G, fr *Frame, in *ssa.Range)
 			}
 			n := len(m.Entries)
 			var order []int
-			if n == 1 || e.info(fr.Fn).overlay && !e.cfg.HarnessMapOrder {
+			if n == 1 || !e.info(fr.Fn).repo {
 				order = make([]int, n)
 				for i := range order {
 					order[i] = i
